@@ -1701,12 +1701,11 @@ class BrowserLikeRedirectAgent(RedirectAgent):
     @since: 13.1
     """
 
-    _redirectResponses = [http.TEMPORARY_REDIRECT]
+    _redirectResponses = [http.TEMPORARY_REDIRECT, http.PERMANENT_REDIRECT]
     _seeOtherResponses = [
         http.MOVED_PERMANENTLY,
         http.FOUND,
         http.SEE_OTHER,
-        http.PERMANENT_REDIRECT,
     ]
 
 
